@@ -6,11 +6,14 @@
 package cluster
 
 import (
+	"bytes"
 	"context"
+	"crypto/tls"
 	"encoding/json"
 	"errors"
 	"fmt"
 	"io"
+	"net"
 	"os"
 	"path/filepath"
 	"sort"
@@ -92,7 +95,6 @@ type kCfg struct {
 	RetryMax   int  `json:"retry_max"` // RetryDelay answers -1 after this many attempts
 	RESP2      bool `json:"resp2,omitempty"`
 	Multiplex  int  `json:"multiplex"`
-	Pipelining bool `json:"always_pipelining,omitempty"`
 	BaseLatUs  int  `json:"base_lat_us"` // latency of the first user command of a burst
 	TopoLatUs  int  `json:"topo_lat_us,omitempty"`
 	RefreshUs  int  `json:"refresh_us,omitempty"` // ShardsRefreshInterval
@@ -131,6 +133,17 @@ func queueLabel() string {
 
 func isCtxErr(err error) bool {
 	return errors.Is(err, context.Canceled) || errors.Is(err, context.DeadlineExceeded)
+}
+
+var slowN int
+
+// kSlow keeps plans that took long in wall-clock time (development aid, only with VERIF_CLUSTER_SLOW set).
+func kSlow(name string, p kPlan, t0 time.Time) {
+	if d := os.Getenv("VERIF_CLUSTER_SLOW"); d != "" && time.Since(t0) > 3*time.Second {
+		slowN++
+		b, _ := json.Marshal(p)
+		_ = os.WriteFile(filepath.Join(d, fmt.Sprintf("slow-%s-%d-%ds.json", name, slowN, int(time.Since(t0).Seconds()))), b, 0o644)
+	}
 }
 
 func planKey(p kPlan) string {
@@ -338,8 +351,10 @@ type kRun struct {
 	Pending    int
 	PendingOps []string
 	CloseOK    bool
+	CloseAtUs  int64 // when the test closed the client
 	NewErr     string
 	SelCalls   []kSelCall
+	Taps       []kTap
 }
 
 func (run *kRun) result(plan kPlan, ci, oi int) *kResult {
@@ -348,6 +363,78 @@ func (run *kRun) result(plan kPlan, ci, oi int) *kResult {
 		n += len(plan.Callers[c])
 	}
 	return run.Results[n+oi]
+}
+
+// kTap is the client-side instant at which a CLUSTER SLOTS / CLUSTER SHARDS request was written to a
+// connection: requests of one refresh round are written at one instant, but a request queued behind
+// a slow command is read (and answered) by the server much later, after the round has long been
+// decided by another node's answer.
+type kTap struct {
+	Key string // server/conn
+	At  int64
+}
+
+// tapConn is the client end of a connection: it records when CLUSTER requests are written and gives the
+// connection a send buffer (net.Pipe has none: a write would block until the fake server, which may be
+// sleeping out the latency of an earlier command, reads again, and everything queued behind it in the
+// client would be written late).
+type tapConn struct {
+	net.Conn
+	tail    []byte
+	onFrame func()
+	q       chan []byte
+	done    chan struct{}
+	once    sync.Once
+}
+
+var tapPattern = []byte("$7\r\nCLUSTER\r\n")
+
+func newTapConn(nc net.Conn, onFrame func()) *tapConn {
+	t := &tapConn{Conn: nc, onFrame: onFrame, q: make(chan []byte, 4096), done: make(chan struct{})}
+	go func() {
+		for {
+			select {
+			case b := <-t.q:
+				if _, err := t.Conn.Write(b); err != nil {
+					t.Close()
+					return
+				}
+			case <-t.done:
+				return
+			}
+		}
+	}()
+	return t
+}
+
+func (t *tapConn) Close() error {
+	t.once.Do(func() { close(t.done) })
+	return t.Conn.Close()
+}
+
+func (t *tapConn) Write(b []byte) (int, error) {
+	buf := append(t.tail, b...)
+	for i := 0; ; {
+		j := bytes.Index(buf[i:], tapPattern)
+		if j < 0 {
+			break
+		}
+		t.onFrame()
+		i += j + len(tapPattern)
+	}
+	// keep a tail in which a pattern split over two writes can still be found; it is shorter than the pattern and
+	// the pattern's only '$' is its first byte, so no frame is counted twice
+	n := len(tapPattern) - 1
+	if len(buf) > n {
+		buf = buf[len(buf)-n:]
+	}
+	t.tail = append([]byte(nil), buf...)
+	select {
+	case t.q <- append([]byte(nil), b...):
+		return len(b), nil
+	case <-t.done:
+		return 0, net.ErrClosed
+	}
 }
 
 func kLatencyZero(argv []string) bool {
@@ -444,9 +531,34 @@ func kRunPlan(t *testing.T, plan kPlan) (run kRun) {
 			return resp.Value{}, false
 		}
 		opt := sim.Option(w, plan.Topo.Init...)
+		dialSem := make(chan struct{}, 1)
+		opt.DialCtxFn = func(ctx context.Context, addr string, d *net.Dialer, cfg *tls.Config) (net.Conn, error) {
+			if err := ctx.Err(); err != nil {
+				return nil, err
+			}
+			dialSem <- struct{}{}
+			nc, err := w.Dial(addr)
+			id := -1
+			if err == nil {
+				id = len(w.Server(addr).Conns()) - 1
+			}
+			<-dialSem
+			if err != nil {
+				return nil, err
+			}
+			key := addr + "/" + strconv.Itoa(id)
+			return newTapConn(nc, func() {
+				mu.Lock()
+				run.Taps = append(run.Taps, kTap{Key: key, At: w.Since()})
+				mu.Unlock()
+			}), nil
+		}
 		opt.DisableRetry = !plan.Cfg.Retry
 		opt.PipelineMultiplex = plan.Cfg.Multiplex
-		opt.AlwaysPipelining = plan.Cfg.Pipelining
+		// Always the pipelining mode: in the synchronous mode a command issued while another one is in flight on
+		// the connection is written only when that one has been answered; the write instants of CLUSTER requests
+		// would then not tell which requests belong to one refresh round (see candidateViews).
+		opt.AlwaysPipelining = true
 		opt.ClusterOption.MaxMovedRedirections = plan.Cfg.MaxRedir
 		opt.ClusterOption.PreferInitAddressRefresh = plan.Cfg.PreferInit
 		if plan.Cfg.RefreshUs > 0 {
@@ -627,6 +739,7 @@ func kRunPlan(t *testing.T, plan kPlan) (run kRun) {
 			}
 		}
 		mu.Unlock()
+		run.CloseAtUs = w.Since()
 		run.CloseOK = sim.CallTimeout(time.Minute, client.Close)
 		time.Sleep(2 * time.Second)
 		w.Stop()
@@ -643,7 +756,10 @@ func kRunPlan(t *testing.T, plan kPlan) (run kRun) {
 // ---------------------------------------------------------------- observations
 
 type kReq struct {
-	Server  string
+	// Doubtful: the connection was closed from the server side (kill) or by the client before the end of
+	// the plan (a fired deadline closes the shared connection): a logged reply may not have been delivered.
+	Doubtful bool
+	Server   string
 	Conn    int
 	Req     int
 	Argv    []string
@@ -672,6 +788,7 @@ type kSend struct {
 }
 
 type kTopoView struct {
+	SentAt  int64 // when the client wrote the request
 	At, Seq int64
 	Server  string
 	Ranges  []kRange
@@ -719,7 +836,8 @@ func isRedirect(v *resp.Value) (kind, addr string, slot int) {
 	return "", "", 0
 }
 
-func kObserve(plan kPlan, events []fakeredis.Event) *kObs {
+func kObserve(plan kPlan, run kRun) *kObs {
+	events := run.Events
 	o := &kObs{Conns: map[string][]*kReq{}, Sends: map[string][]*kSend{}, Down: map[string]bool{}}
 	for _, e := range plan.Events {
 		if e.Kind == "kill" {
@@ -727,10 +845,24 @@ func kObserve(plan kPlan, events []fakeredis.Event) *kObs {
 		}
 	}
 	idx := map[string]*kReq{}
+	closed := map[string]bool{}
+	doubtful := map[string]bool{}
+	taps := map[string][]int64{}
+	for _, t := range run.Taps {
+		taps[t.Key] = append(taps[t.Key], t.At)
+	}
+	clusterReqs := map[string]int{}
 	for i := range events {
 		e := &events[i]
 		key := e.Server + "/" + strconv.Itoa(e.Conn)
 		switch e.Kind {
+		case "close":
+			if !closed[key] {
+				closed[key] = true
+				if e.At < run.CloseAtUs || !(strings.HasPrefix(e.Note, "peer closed") || e.Note == "world stopped") {
+					doubtful[key] = true
+				}
+			}
 		case "recv":
 			r := &kReq{Server: e.Server, Conn: e.Conn, Req: e.Req, Argv: e.Argv, At: e.At, Seq: e.Seq}
 			if _, ok := o.Conns[key]; !ok {
@@ -738,13 +870,19 @@ func kObserve(plan kPlan, events []fakeredis.Event) *kObs {
 			}
 			o.Conns[key] = append(o.Conns[key], r)
 			idx[key+"#"+strconv.Itoa(e.Req)] = r
+			if len(e.Argv) == 2 && strings.EqualFold(e.Argv[0], "CLUSTER") {
+				clusterReqs[key]++ // replies on a connection come in request order: the k-th reply belongs to the k-th write
+			}
 		case "reply":
-			if r := idx[key+"#"+strconv.Itoa(e.Req)]; r != nil && r.Reply == nil {
+			if r := idx[key+"#"+strconv.Itoa(e.Req)]; r != nil && r.Reply == nil && !closed[key] {
 				r.Reply = e.Reply
 				r.ReplyAt = e.At
 				if len(r.Argv) == 2 && strings.EqualFold(r.Argv[0], "CLUSTER") {
 					if v := kParseTopo(strings.ToUpper(r.Argv[1]), e.Server, e.Reply); v != nil {
-						v.At, v.Seq = e.At, e.Seq
+						v.At, v.Seq, v.SentAt = e.At, e.Seq, r.At
+						if ts := taps[key]; clusterReqs[key] <= len(ts) && clusterReqs[key] > 0 {
+							v.SentAt = ts[clusterReqs[key]-1]
+						}
 						o.Views = append(o.Views, v)
 					}
 				}
@@ -757,6 +895,11 @@ func kObserve(plan kPlan, events []fakeredis.Event) *kObs {
 	for _, key := range o.ConnKeys {
 		var cur *kSpan
 		reqs := o.Conns[key]
+		if doubtful[key] {
+			for _, r := range reqs {
+				r.Doubtful = true
+			}
+		}
 		for i, r := range reqs {
 			prevAsking := i > 0 && reqs[i-1].name() == "ASKING"
 			switch r.name() {
@@ -917,22 +1060,40 @@ func kParseTopo(sub, server string, v *resp.Value) *kTopoView {
 }
 
 // candidateViews returns the topology answers the client may be routing by for a command that was
-// issued at t0 and reached a server at t1: the answers of the last refresh round completed before
-// t0 (all answers of that instant: the client keeps the first one it reads, which the log cannot
-// tell) and every answer received up to t1.
+// issued at t0 and reached a server at t1. The client adopts the first non-empty answer of each
+// refresh round and ignores the others, which may arrive much later (a request queued behind a slow
+// command) although they were requested together; the log cannot tell which answer won a round.
+// What is certain: requests written at one instant S form (at least) one round whose winner is
+// the earliest answer to them; so an answer V is out of date for sure once some round written
+// strictly after V arrived has been answered strictly before t0. Every other answer up to t1 is
+// a candidate.
 func (o *kObs) candidateViews(t0, t1 int64) (views []*kTopoView, since int64) {
-	last := int64(-1)
+	minAt := map[int64]int64{} // SentAt -> earliest answer
 	for _, v := range o.Views {
-		if v.At < t0 && v.At > last {
-			last = v.At
+		if m, ok := minAt[v.SentAt]; !ok || v.At < m {
+			minAt[v.SentAt] = v.At
 		}
 	}
+	since = -1
 	for _, v := range o.Views {
-		if v.At >= last && v.At <= t1 {
+		if v.At > t1 {
+			continue
+		}
+		superseded := false
+		for s, m := range minAt {
+			if s > v.At && m < t0 {
+				superseded = true
+				break
+			}
+		}
+		if !superseded {
 			views = append(views, v)
+			if since < 0 || v.At < since {
+				since = v.At
+			}
 		}
 	}
-	return views, last
+	return views, since
 }
 
 // primaryCandidates: the addresses a command for slot may legitimately be sent to first when it has
@@ -977,7 +1138,7 @@ func keysOf(m map[string]bool) []string {
 // followed counts the sends of a command that follow a MOVED/ASK answer to its previous send.
 func followed(ss []*kSend) (n int, chain []string) {
 	for i, s := range ss {
-		if i > 0 {
+		if i > 0 && !ss[i-1].R.Doubtful {
 			if kind, _, _ := isRedirect(ss[i-1].Eff); kind != "" {
 				n++
 			}
@@ -1189,9 +1350,9 @@ func genEvents(rt *rapid.T, tp kTopo, g *kGen, kinds []string, maxN, horizonUs i
 		case "unassign":
 			evs = append(evs, kEvent{AtUs: at, Kind: "unassign", Slot: slot, Hi: slot})
 		case "migrate":
-			ev := kEvent{AtUs: at, Kind: "migrate", Slot: slot, To: rapid.IntRange(0, nSh-1).Draw(rt, "to"), All: rapid.IntRange(0, 2).Draw(rt, "allMoved") == 0}
+			ev := kEvent{AtUs: at, Kind: "migrate", Slot: slot, To: rapid.IntRange(0, nSh-1).Draw(rt, "to"), All: rapid.Bool().Draw(rt, "allMoved")}
 			for _, k := range g.keys[slot] {
-				if rapid.Bool().Draw(rt, "keyMoved") {
+				if rapid.IntRange(0, 2).Draw(rt, "keyMoved") != 0 {
 					ev.Moved = append(ev.Moved, k)
 				}
 			}
@@ -1227,6 +1388,12 @@ func genEvents(rt *rapid.T, tp kTopo, g *kGen, kinds []string, maxN, horizonUs i
 			if rapid.IntRange(0, 2).Draw(rt, "revive") == 0 {
 				evs = append(evs, kEvent{AtUs: at + rapid.IntRange(100, 50000).Draw(rt, "reviveAfter"), Kind: "revive", Node: sh.Primary})
 			}
+		case "switch":
+			// a manual failover: the first replica and the primary swap roles, nobody dies
+			sh := tp.Shards[rapid.IntRange(0, nSh-1).Draw(rt, "switchShard")]
+			if len(sh.Replicas) > 0 {
+				evs = append(evs, kEvent{AtUs: at, Kind: "failover", Node: sh.Replicas[0]})
+			}
 		case "health":
 			sh := tp.Shards[rapid.IntRange(0, nSh-1).Draw(rt, "healthShard")]
 			if len(sh.Replicas) > 0 {
@@ -1244,7 +1411,6 @@ func genCfg(rt *rapid.T) kCfg {
 		Retry:      rapid.IntRange(0, 3).Draw(rt, "retry") != 0,
 		RetryMax:   rapid.IntRange(1, 5).Draw(rt, "retryMax"),
 		Multiplex:  rapid.SampledFrom([]int{-1, -1, 0, 1}).Draw(rt, "multiplex"),
-		Pipelining: rapid.Bool().Draw(rt, "alwaysPipelining"),
 		BaseLatUs:  rapid.SampledFrom([]int{20, 100, 400}).Draw(rt, "baseLat"),
 		TopoLatUs:  rapid.SampledFrom([]int{0, 0, 300, 2000}).Draw(rt, "topoLat"),
 		RefreshUs:  rapid.SampledFrom([]int{0, 0, 0, 5000, 40000}).Draw(rt, "refresh"),
